@@ -555,8 +555,12 @@ Qed.
 Definition fwP (e : expr) : Prop := fwb e = true.
 Lemma fwP_copy b n : fwP b -> fwP (named_copy b n).
 Proof. unfold fwP. destruct b; cbn; intros H; exact H. Qed.
-Lemma fwP_rep a i z b ne : fwP (Rep a i z b ne) -> fwP b.
-Proof. unfold fwP. cbn [fw]. rewrite ?fwl_fix. intros H. repeat (apply andb_prop in H as [H ?]). assumption. Qed.
+Lemma fwP_rep a i z b ne : fwP (Rep a i z b ne) -> fwP (snd (rep_operand (Rep a i z b ne) b)).
+Proof.
+  intros H. assert (Hb : fwP b).
+  { unfold fwP in *. cbn [fw] in H. rewrite ?fwl_fix in H. repeat (apply andb_prop in H as [H ?]). assumption. }
+  unfold rep_operand. destruct (rsname _); cbn [snd]; [apply fwP_copy|]; exact Hb.
+Qed.
 Lemma fwP_opt a i dflt b : fwP (Enh a i (EOpt dflt) b) -> fwP b.
 Proof. unfold fwP. cbn [fw]. rewrite ?fwl_fix. intros H. repeat (apply andb_prop in H as [H ?]). assumption. Qed.
 Lemma fwP_Forall l : forallb fwb l = true -> Forall fwP l.
@@ -608,7 +612,7 @@ Qed.
 Lemma K_each_impl es info loc d : forallb fwb es = true -> K (each_impl k es info s loc d).
 Proof.
   intros Hw0. pose proof (fwP_Forall es Hw0) as Hw.
-  destruct (each_groups_P fwP fwP_copy fwP_rep fwP_opt es info Hw) as (H1 & H2 & H3 & H4 & H5).
+  destruct (each_groups_P fwP fwP_rep fwP_opt es info Hw) as (H1 & H2 & H3 & H4 & H5).
   unfold each_impl. apply K_each_loop; try assumption; try (apply entsP_app; assumption); [constructor|].
   intros reqd' opt' mo' fs' Hr' Ho' Hm'.
   destruct (pick_fatal fs') as [fx|]; [apply K_fail|].
